@@ -324,6 +324,7 @@ def run(ctx: common.Run):
         return
     check_rules(ctx, cirq)
     check_symbolized_merge(ctx, cirq)
+    check_dd(ctx, cirq)
     check_gauges(ctx, cirq)
     check_qudit_passes(ctx, cirq)
     n = 40 if ctx.tier == 'quick' else 600
@@ -515,6 +516,56 @@ class MMWrap:
 
     def __call__(self, circuit, prng=None):
         return self.t(circuit, rng_or_seed=prng)
+
+
+def check_dd(ctx, cirq):
+    """add_dynamical_decoupling on circuits with idle windows between single-qubit Cliffords of every order (all 24, as PhasedXZ gates),
+    non-Clifford gates and two-qubit Cliffords, for every built-in schema: the inserted pulses are pulled through the Cliffords and merged;
+    the unitary must stay the same up to global phase"""
+    rng = ctx.substream('dd')
+    n = 30 if ctx.tier == 'quick' else 500
+    cliffs = [g.to_phased_xz_gate() for g in cirq.SingleQubitCliffordGate.all_single_qubit_cliffords]
+    schemas = ['XX_PAIR', 'X_XINV', 'YY_PAIR', 'Y_YINV', 'DEFAULT', [cirq.X, cirq.Y, cirq.X, cirq.Y], [cirq.Z, cirq.Z]]
+    for it in range(n):
+        qs = cirq.LineQubit.range(rng.choice([2, 2, 3]))
+        moments = [cirq.Moment(cirq.H.on_each(*qs))]
+        for _ in range(rng.randint(3, 7)):
+            ops, busy = [], set()
+            if len(qs) >= 2 and rng.random() < 0.25:
+                a, b = rng.sample(list(qs), 2)
+                ops.append(rng.choice([cirq.CZ, cirq.CNOT, cirq.ISWAP, cirq.SWAP, cirq.CZ ** 0.5])(a, b))
+                busy |= {a, b}
+            for q in qs:
+                if q in busy:
+                    continue
+                r = rng.random()
+                if r < 0.45:
+                    continue  # idle
+                if r < 0.8:
+                    ops.append(rng.choice(cliffs).on(q))
+                else:
+                    ops.append(rng.choice([cirq.T, cirq.X ** 0.3, cirq.H, cirq.S, cirq.Y ** 0.5])(q))
+            moments.append(cirq.Moment(ops))
+        circuit = cirq.Circuit(moments)
+        schema = rng.choice(schemas)
+        kw = {} if schema == 'DEFAULT' else {'schema': schema}
+        if rng.random() < 0.3:
+            kw['single_qubit_gate_moments_only'] = rng.random() < 0.5
+        rep = {'lines': [{'transformer': 'add_dynamical_decoupling', 'circuit': repr(circuit), 'options': repr(kw)}], 'theorem_or_correspondence': 'Lean reference semantics (C01)'}
+        before = circuit.copy()
+        try:
+            out = cirq.add_dynamical_decoupling(circuit, **kw)
+        except (ValueError, TypeError, NotImplementedError) as e:
+            ctx.count('transformer_error', f'dd:{type(e).__name__}:{str(e)[:30]}')
+            continue
+        ctx.count('check', 'dd')
+        ctx.case(['dd', repr(circuit), repr(kw)], True)
+        want = lean_unitary(ctx, cirq, circuit, list(qs))
+        got = lean_unitary(ctx, cirq, out, list(qs))
+        if got.shape != want.shape or not phase_close(got, want, 1e-6):
+            ctx.report_witness('rewrite:add_dynamical_decoupling', 'dynamical decoupling changes the unitary of the circuit (up to global phase)', dict(rep, impl_out=[repr(out)[:2500]], spec_out=['same unitary']))
+        if circuit != before:
+            ctx.report_witness('mutated-input:add_dynamical_decoupling', 'the transformer modified its argument', dict(rep, impl_out=[repr(circuit)[:1500]], spec_out=[repr(before)[:1500]]))
 
 
 def check_symbolized_merge(ctx, cirq):
